@@ -11,7 +11,8 @@ git -C /repo worktree add --detach $WT HEAD >/dev/null 2>&1 || { echo "worktree 
 cp $SRC/seed${N}_demo.py $WT/ 
 cd $WT
 /venv/bin/python seed${N}_demo.py > /tmp/confirm_${P}_${N}_demo_clean.txt 2>&1; RC_CLEAN=$?
-git apply $SRC/seed${N}_patch.diff; RC_APPLY=$?
+git apply $SRC/seed${N}_patch.diff 2>/dev/null || git apply --3way $SRC/seed${N}_patch.diff; RC_APPLY=$?
+git diff HEAD -- py_ballisticcalc > /tmp/confirm_${P}_${N}_rebased.diff
 /venv/bin/python seed${N}_demo.py > /tmp/confirm_${P}_${N}_demo_patched.txt 2>&1; RC_PATCHED=$?
 /venv/bin/python -m pytest -q -p no:cacheprovider --timeout=900 --continue-on-collection-errors 2>&1 | tail -3 > /tmp/confirm_${P}_${N}_tests.txt
 TESTS=$(grep -o '[0-9]* passed' /tmp/confirm_${P}_${N}_tests.txt | head -1)
@@ -20,7 +21,7 @@ cd /; git -C /repo worktree remove --force $WT
 echo "$P-$N apply=$RC_APPLY demo_clean_rc=$RC_CLEAN demo_patched_rc=$RC_PATCHED tests='$TESTS' failed='$FAILED'"
 if [ "$RC_APPLY" = 0 ] && [ "$RC_CLEAN" = 0 ] && [ "$RC_PATCHED" = 1 ] && [ "$TESTS" = "108 passed" ] && [ -z "$FAILED" ]; then
   mkdir -p $OUT
-  cp $SRC/seed${N}_patch.diff $OUT/patch.diff
+  cp /tmp/confirm_${P}_${N}_rebased.diff $OUT/patch.diff
   cp $SRC/seed${N}_demo.py $OUT/demo.py
   python3 - <<PY
 import json
